@@ -59,6 +59,24 @@ func c46SvcTables(c *Ctx) {
 		}
 		return "", false
 	}
+	// at most ONE suffix is taken off: every suffix operation works on the text as
+	// given, never on an already shortened one ("CS_M_A" is not a spelling)
+	nSuffix, okSuffix := 0, true
+	for _, b := range pv.Fn.Blocks {
+		for _, in := range b.Instrs {
+			call, ok := in.(*ssa.Call)
+			if !ok {
+				continue
+			}
+			switch calleeName(call.Common()) {
+			case "strings.TrimSuffix", "strings.CutSuffix", "strings.HasSuffix":
+				nSuffix++
+				okSuffix = okSuffix && pv.S.Sym(call.Common().Args[0]) == "arg0"
+			}
+		}
+	}
+	c.Check(okSuffix && nSuffix >= 2, rule, "ParseSVC:one-suffix", pv.Fn.Pos(),
+		fmt.Sprintf("%d suffix operation(s), each applied to the text as given", nSuffix))
 	parse := map[string]string{}
 	mcastParse := ""
 	for _, b := range pv.Fn.Blocks {
